@@ -100,7 +100,7 @@ pub trait DID:
 
 #[derive(Clone, PartialEq, Eq, PartialOrd, Ord, Hash, serde::Deserialize, serde::Serialize)]
 #[repr(transparent)]
-#[serde(into = "BaseDIDUrl", try_from = "BaseDIDUrl")]
+#[serde(into = "String", try_from = "String")]
 /// A wrapper around [`BaseDIDUrl`](BaseDIDUrl).
 pub struct CoreDID(BaseDIDUrl);
 
@@ -111,7 +111,7 @@ impl CoreDID {
   ///
   /// Returns `Err` if the input is not a valid [`DID`].
   pub fn parse(input: impl AsRef<str>) -> Result<Self, Error> {
-    BaseDIDUrl::parse(input).map(Self).map_err(Error::from)
+    parse_base_did_url(input.as_ref()).and_then(Self::try_from)
   }
 
   /// Set the method name of the [`DID`].
@@ -145,8 +145,11 @@ impl CoreDID {
     while let Some(c) = chars.next() {
       match c {
         '%' => {
+          // `from_str_radix` would also accept a sign, e.g. "%+1".
           let digits = chars.clone().take(2).collect::<String>();
-          u8::from_str_radix(&digits, 16).map_err(|_| Error::InvalidMethodId)?;
+          if digits.len() != 2 || !digits.chars().all(|digit| digit.is_ascii_hexdigit()) {
+            return Err(Error::InvalidMethodId);
+          }
           chars.next();
           chars.next();
         }
@@ -192,8 +195,64 @@ impl TryFrom<BaseDIDUrl> for CoreDID {
   type Error = Error;
 
   fn try_from(base_did_url: BaseDIDUrl) -> Result<Self, Self::Error> {
+    Self::check_validity(&base_did_url)?;
     Ok(Self(base_did_url))
   }
+}
+
+/// Parses `input` with [`BaseDIDUrl::parse`], guarding against two shortcomings of that parser:
+/// - it trims surrounding whitespace and control characters but stores, and indexes into, the untrimmed input,
+///   which garbles every component;
+/// - after a percent-encoded octet it skips the following character without looking at it, so a delimiter there is
+///   lost, any character is accepted, and an octet ending the method-specific-id makes it index out of bounds.
+///
+/// Surrounding whitespace is rejected here. Percent-encoded octets are checked here and masked with characters of
+/// the same length that are valid everywhere, so that the component boundaries are found correctly; the original
+/// text is then put back.
+pub(crate) fn parse_base_did_url(input: &str) -> Result<BaseDIDUrl, Error> {
+  if input.trim_matches(|ch: char| ch.is_ascii_control() || ch.is_ascii_whitespace()) != input {
+    return Err(Error::Other("invalid DID: leading or trailing whitespace"));
+  }
+  if !input.contains('%') {
+    return BaseDIDUrl::parse(input).map_err(Error::from);
+  }
+
+  let mut masked: String = String::with_capacity(input.len());
+  let mut chars = input.char_indices();
+  while let Some((index, ch)) = chars.next() {
+    if ch == '%' {
+      if !crate::did_url::is_valid_percent_encoded_char(&input[index..]) {
+        return Err(Error::Other("invalid percent-encoded character"));
+      }
+      masked.push_str("000");
+      chars.next();
+      chars.next();
+    } else {
+      masked.push(ch);
+    }
+  }
+
+  let mut base: BaseDIDUrl = BaseDIDUrl::parse(&masked)?;
+  // A method name has no percent-encoded octets.
+  if input.get(BaseDIDUrl::SCHEME.len() + 1..BaseDIDUrl::SCHEME.len() + 1 + base.method().len()) != Some(base.method()) {
+    return Err(Error::InvalidMethodName);
+  }
+  let method_id_start: usize = BaseDIDUrl::SCHEME.len() + 1 + base.method().len() + 1;
+  let path_start: usize = method_id_start + base.method_id().len();
+  let path_end: usize = path_start + base.path().len();
+  let query_len: Option<usize> = base.query().map(str::len);
+  let fragment_len: Option<usize> = base.fragment().map(str::len);
+  let query_end: usize = query_len.map(|len| path_end + 1 + len).unwrap_or(path_end);
+
+  base.set_method_id(&input[method_id_start..path_start]);
+  base.set_path(&input[path_start..path_end]);
+  if query_len.is_some() {
+    base.set_query(Some(&input[path_end + 1..query_end]));
+  }
+  if let Some(len) = fragment_len {
+    base.set_fragment(Some(&input[query_end + 1..query_end + 1 + len]));
+  }
+  Ok(base)
 }
 
 impl Debug for CoreDID {
